@@ -86,6 +86,9 @@ DEFECTS = [
     ("scopes=absent", dict(scopes="a")), ("scopes=string", dict(scopes=sval("read"))), ("scopes=empty", dict(scopes="l")),
     ("topic=absent", dict(topic="a")), ("topic=number", dict(topic="i7")), ("prefix=absent", dict(prefix="a")),
     ("bid=absent", dict(bid="a")), ("alg=HS384", dict(alg="HS384")), ("alg=HS512", dict(alg="HS512")),
+    # tokens of the other connection type presented at /session/…: their scopes (host / client) carry no read/write capability
+    ("prefix=shell+host", dict(prefix=sval("shell"), scopes=lval(["host"]))), ("prefix=shell+client", dict(prefix=sval("shell"), scopes=lval(["client"]))),
+    ("prefix=shell+rw", dict(prefix=sval("shell"))), ("prefix=Session", dict(prefix=sval("Session"))),
 ]
 
 
@@ -216,7 +219,8 @@ class RelayMode(vlib.Mode):
                 cred = tok(now, **base) if rng.random() < 0.95 else rng.choice(["-", "raw:" + hx("garbage"), "raw:" + hx("a.b.c"), "raw:" + hx("Bearer x")])
                 case.append(f"session {cred} {hx(pid)}")
                 # generator-side guess (never used to judge): was a code probably issued, and for which topic?
-                if k < 0.45 and pid == t and cred.startswith("alg=") and b not in st["denied"]:
+                if (k < 0.45 or "prefix=s" + hx("shell") in cred or "prefix=s" + hx("Session") in cred) and pid == t and cred.startswith("alg=") and b not in st["denied"] \
+                        and cred.count("sig=good") == 1 and "alg=HS256" in cred:
                     st["codes"].append(t)
             elif r < 0.50:    # websocket attempt
                 tmpl, _ = rng.choice(WS_PATHS) if rng.random() < 0.3 else WS_PATHS[0]
